@@ -1,10 +1,139 @@
 package props
 
 import (
+	"fmt"
+	"sort"
+	"strings"
 	"testing"
 
+	"pgregory.net/rapid"
+
+	"verif/harness/gen"
+	"verif/harness/model"
 	"verif/harness/vh"
 )
 
-func c03Random(t *testing.T, s *vh.Session)       {}
-func c03ReplayRandom(t *testing.T, s *vh.Session) {}
+// progCase is a generated program with its model-side converter description.
+type progCase struct {
+	Conv *model.Conv `json:"conv"`
+}
+
+func drawOpts(rt *rapid.T) gen.Opts {
+	return gen.Opts{
+		MaxDepth:      rapid.IntRange(1, 5).Draw(rt, "maxdepth"),
+		SamePkg:       rapid.IntRange(0, 3).Draw(rt, "samepkg") == 0,
+		FieldSettings: rapid.Bool().Draw(rt, "fieldsettings"),
+		Defects:       rapid.IntRange(0, 1).Draw(rt, "defects"),
+		Flags:         rapid.Bool().Draw(rt, "flags"),
+		SkipCopy:      rapid.IntRange(0, 3).Draw(rt, "skipcopy") == 0,
+		Enums:         rapid.Bool().Draw(rt, "enums"),
+		Arrays:        true,
+		ArraysAssign:  true,
+		Exotic:        rapid.IntRange(0, 3).Draw(rt, "exotic") == 0,
+		Unexported:    rapid.Bool().Draw(rt, "unexported"),
+		Methods:       rapid.Bool().Draw(rt, "methods"),
+	}
+}
+
+// modelProgram returns the model verdict for the whole converter (first rejecting method).
+func modelProgram(c *model.Conv) *model.Reject {
+	// goverter generates methods in name order and stops at the first failure;
+	// only success vs failure is compared, so any rejecting method decides.
+	for _, m := range c.Methods {
+		if r := c.Check(m); r != nil {
+			r.Msg = m.Name + ": " + r.Msg
+			return r
+		}
+	}
+	return nil
+}
+
+func c03CheckProgram(s *vh.Session, c progCase) (string, bool) {
+	dir := s.Scratch()
+	if err := vh.WriteTree(dir, c.Conv.Prog.Files()); err != nil {
+		return "INFRA: " + err.Error(), false
+	}
+	loaded, err := vh.Load(vh.GenOpts{Dir: dir, Patterns: []string{"./conv"}})
+	if err != nil {
+		return "INFRA: generated program does not load: " + vh.FirstLines(err.Error(), 8), false
+	}
+	res := loaded.PerConverter(nil, nil)
+	if len(res) != 1 {
+		return fmt.Sprintf("INFRA: expected one converter, got %d", len(res)), false
+	}
+	r := res[0]
+	s.Eval(1)
+	if r.Panic != "" || r.Hang {
+		s.Label("c13:" + vh.PanicSig(r.Panic))
+		s.Discard(1)
+		return "", true
+	}
+	rej := modelProgram(c.Conv)
+	class := "accept"
+	if rej != nil {
+		class = "reject:" + rej.Class
+	}
+	s.Label("random:" + class)
+	if (r.Err == nil) != (rej == nil) {
+		msg := fmt.Sprintf("model says %s", class)
+		if rej != nil {
+			msg += " (" + rej.Msg + ")"
+		}
+		return msg + ", goverter says " + outcome(r.GenResult), true
+	}
+	if r.Err == nil && len(r.Files) == 0 {
+		return "success without files", true
+	}
+	return "", true
+}
+
+func progSummary(c *model.Conv) string {
+	var parts []string
+	for _, m := range c.Methods {
+		parts = append(parts, m.Source.Key_()+"->"+m.Target.Key_())
+	}
+	sort.Strings(parts)
+	return strings.Join(parts, "; ") + " | " + strings.Join(c.Settings.Lines(), ",")
+}
+
+func c03Random(t *testing.T, s *vh.Session) {
+	rapid.Check(t, func(rt *rapid.T) {
+		o := drawOpts(rt)
+		b := gen.New(rt, o)
+		n := rapid.IntRange(1, 3).Draw(rt, "nmethods")
+		for i := 0; i < n; i++ {
+			b.Method(fmt.Sprintf("M%d", i), o.MaxDepth)
+		}
+		b.Finish()
+		c := progCase{Conv: b.Conv}
+		msg, ok := c03CheckProgram(s, c)
+		if !ok {
+			s.Infra(msg)
+			rt.Fatalf("%s", msg)
+		}
+		for l, k := range b.Labels {
+			s.LabelN("gen:"+l, k)
+		}
+		nontrivial := len(b.Conv.Methods) > n || o.Defects > 0 || len(b.Conv.Settings.Lines()) > 0
+		if nontrivial {
+			s.Nontrivial("random:"+progSummary(b.Conv), progSummary(b.Conv))
+		}
+		if msg != "" {
+			s.FailRapid(rt, "prog", c, "%s", msg)
+		}
+	})
+}
+
+func c03ReplayRandom(t *testing.T, s *vh.Session) {
+	var c progCase
+	if err := s.LoadReplay(&c); err != nil {
+		t.Fatalf("INFRA: %v", err)
+	}
+	msg, ok := c03CheckProgram(s, c)
+	if !ok {
+		t.Fatalf("%s", msg)
+	}
+	if msg != "" {
+		s.FailT(t, "prog", c, msg)
+	}
+}
